@@ -117,9 +117,9 @@ def table(tier: str) -> list[dict]:
             adm = [x for x in pool if ok(x)]
             ref = [x for x in pool if not ok(x)] + ['abc']
             if quick:
-                keep_a = [x for x in adm if isinstance(x, int)][:2] + [x for x in adm if isinstance(x, float)][:3]
-                adm = keep_a or adm[:3]
-                ref = ref[:2] + ['abc']
+                keep_a = [x for x in adm if isinstance(x, int)][:1] + [x for x in adm if isinstance(x, float)][-2:]
+                adm = keep_a or adm[:2]
+                ref = ref[:1] + ['abc']
         adm_t = _uniq([default] + [tok(x) for x in adm]) if _admits_default(p, conds) else _uniq([tok(x) for x in adm])
         ref_t = [t for t in _uniq([tok(x) for x in ref]) if t not in adm_t]
         if kind == 'bool':
